@@ -48,6 +48,20 @@ func c01Command(rc *RunCtx, t *simrt.Tape) {
 	}
 	fc := genFile(t, maxRecs, false)
 	format := fc.Shape.Format
+	solexa := false
+	if format == fmFastq && t.Choose(4) == 3 {
+		// an old Solexa / Illumina 1.3 file: quality characters are score + 64, read with --solexa
+		solexa = true
+		fc.Shape.Solexa = true
+		for i := range fc.Recs {
+			for j := range fc.Recs[i].Qual {
+				if fc.Recs[i].Qual[j] > 40 {
+					fc.Recs[i].Qual[j] = 40
+				}
+			}
+		}
+		renderFile(fc)
+	}
 	viaStdin := format <= fmFastq && t.Choose(3) == 2
 	viaPipe := false
 	aligned := false
@@ -73,6 +87,10 @@ func c01Command(rc *RunCtx, t *simrt.Tape) {
 	spec := CmdSpec{Name: "obiconvert", Dir: dir, PoolPolicy: p.Pool, YieldDensity: p.Yield, StderrNull: p.ErrNull}
 	if p.Chunk > 0 {
 		spec.Knobs = map[string]int{"chunk": p.Chunk}
+	}
+	if solexa {
+		args = append(args, "--solexa")
+		rc.Probe("solexa_quality_encoding")
 	}
 	transport := "file"
 	var extra []*fileCase
@@ -101,7 +119,15 @@ func c01Command(rc *RunCtx, t *simrt.Tape) {
 				fx := genFile(simrt.PrefixTape([]int32{int32(format)}, uint64(t.Choose(1<<30))), maxRecs, false)
 				for i := range fx.Recs {
 					fx.Recs[i].ID = fmt.Sprintf("f%d%s", x, fx.Recs[i].ID)
+					if solexa {
+						for j := range fx.Recs[i].Qual {
+							if fx.Recs[i].Qual[j] > 40 {
+								fx.Recs[i].Qual[j] = 40
+							}
+						}
+					}
 				}
+				fx.Shape.Solexa = solexa
 				renderFile(fx)
 				fn := filepath.Join(dir, fmt.Sprintf("more%d%s%s", x, ext, codecExt[codec]))
 				os.WriteFile(fn, compress(codec, fx.Text), 0644)
